@@ -28,7 +28,9 @@ type Rec struct {
 	Skipped     int64
 	Classes     map[string]int64
 	Excluded    map[string]int64
-	Extra       map[string]any
+	// KnownObserved: failures attributed to an open known finding, by finding id
+	KnownObserved map[string]int64
+	Extra         map[string]any
 	fps         map[uint64]struct{}
 	samples     []any
 	sampleEvery int64
@@ -38,7 +40,7 @@ type Rec struct {
 var R = New()
 
 func New() *Rec {
-	return &Rec{Classes: map[string]int64{}, Excluded: map[string]int64{}, Extra: map[string]any{},
+	return &Rec{Classes: map[string]int64{}, Excluded: map[string]int64{}, KnownObserved: map[string]int64{}, Extra: map[string]any{},
 		fps: map[uint64]struct{}{}, sampleEvery: 1, maxFps: 4_000_000}
 }
 
@@ -101,6 +103,14 @@ func (r *Rec) Exclude(finding string) {
 	r.mu.Unlock()
 }
 
+// Known records that a case failed in exactly the way an open known finding
+// describes (the driver prints KNOWN-FINDING for it; the search continues).
+func (r *Rec) Known(finding string) {
+	r.mu.Lock()
+	r.KnownObserved[finding]++
+	r.mu.Unlock()
+}
+
 func (r *Rec) SetExtra(k string, v any) {
 	r.mu.Lock()
 	r.Extra[k] = v
@@ -113,6 +123,7 @@ type statsFile struct {
 	Skipped     int64            `json:"skipped"`
 	Classes     map[string]int64 `json:"classes"`
 	Excluded    map[string]int64 `json:"excluded"`
+	Known       map[string]int64 `json:"known_observed"`
 	Extra       map[string]any   `json:"extra"`
 	Samples     []any            `json:"samples"`
 	Distinct    int              `json:"distinct_in_shard"`
@@ -138,7 +149,7 @@ func (r *Rec) Flush() {
 		binary.LittleEndian.PutUint64(buf[8*i:], v)
 	}
 	_ = os.WriteFile(path+".fp", buf, 0o644)
-	sf := statsFile{r.Evaluations, r.NonTrivial, r.Skipped, r.Classes, r.Excluded, r.Extra, r.samples, len(fp), path + ".fp"}
+	sf := statsFile{r.Evaluations, r.NonTrivial, r.Skipped, r.Classes, r.Excluded, r.KnownObserved, r.Extra, r.samples, len(fp), path + ".fp"}
 	b, _ := json.MarshalIndent(sf, "", " ")
 	_ = os.WriteFile(path, b, 0o644)
 }
